@@ -5,6 +5,7 @@ import (
 	"encoding/hex"
 	"encoding/json"
 	"fmt"
+	"strings"
 
 	"github.com/cloudwego/gopkg/protocol/thrift"
 	"github.com/cloudwego/gopkg/protocol/thrift/base"
@@ -303,6 +304,17 @@ func init() {
 			"stack exhaustion of the unbounded recursion in the unknown-field converter needs > 10 MB of nested input and is outside the explored sizes",
 		},
 		Run: c03Run,
+		// a read outside the slice sees whatever lies there: the same defect may fault on one execution and panic on another
+		SameFinding: func(a, b string) bool {
+			pa, pb := strings.SplitN(a, "|", 4), strings.SplitN(b, "|", 4)
+			if len(pa) < 3 || len(pb) < 3 || pa[1] != pb[1] {
+				return false
+			}
+			mem := func(s string) bool {
+				return strings.HasPrefix(s, "panic") || strings.HasPrefix(s, "fault") || strings.HasPrefix(s, "depends-on") || strings.HasPrefix(s, "over-report") || strings.HasPrefix(s, "negative-length")
+			}
+			return mem(pa[2]) && mem(pb[2])
+		},
 		Replay: func(c *mc.Ctx, sub string, raw json.RawMessage) {
 			replayAs(raw, func(k c03Case) {
 				b, _ := hex.DecodeString(k.InputHex)
